@@ -47,14 +47,14 @@ m = {
     "version": 1,
     "setup_cmd": "./setup.sh",
     "hooks": {"guard": "XITORCH_VERIF",
-              "enable": "no hooks: contracts are sidecar files under /verif (props/, contracts/); /repo is verified as imported",
+              "enable": "no hooks: contracts are sidecar files under /verif (props/ with the concrete oracles in replay/); /repo is verified as imported",
               "baseline_off_cmd": "cd /repo && /venv/bin/python -m pytest -ra -q -p no:cacheprovider --timeout=900 "
                                   "--continue-on-collection-errors",
               "source_commits": [], "add_only": True},
     "engines": [{"name": "pydv", "path": "pydv/", "serves_properties": [c["property_id"] for c in checks],
                  "kind_free_text": "contract verifier for Python: CPython executes the real /repo functions on symbolic proxies "
                                    "(stub torch), path forking by re-execution, mechanical loop cut at invariants, callee "
-                                   "contracts as stubs, obligations discharged by z3 then cvc5"}],
+                                   "contracts as stubs, obligations discharged by z3 then cvc5; further domains: ARR (concrete shapes, symbolic entries), MAT (free *-algebra with rewrite rules), LAM (tensors of symbolic length)"}],
     "checks": checks,
     "notes": "See DESIGN.md. Exit codes of ./check: 0 held, 1 VIOLATION, 2 undecided, 3 checker error.",
     "not_applicable": na,
